@@ -709,7 +709,8 @@ D1 = datetime.datetime(2024, 2, 29)
 D2 = datetime.datetime(2023, 12, 31, 23, 59, 58, 250000)
 D3 = datetime.datetime(2021, 7, 4, 12, 30, 0)
 ALPHA = {
-    'number': [(None, 'null'), (None, 'empty'), (0, 'num'), (1, 'num'), (-2.5, 'num')],
+    'number': [(None, 'null'), (None, 'empty'), (0, 'num'), (1, 'num'), (-2.5, 'num'),
+               (2e-05, 'num'), (-1.5e-07, 'num'), (3e+20, 'num')],      # written in exponent notation: 2e-05, -1.5e-07, 3e+20
     'boolean': [(None, 'null'), (None, 'empty'), (True, 'bool'), (False, 'bool')],
     'datetime': [(None, 'null'), (None, 'empty'), (D1, 'date'), (D2, 'iso'), (D3, 'z')],
     'string': [(None, 'null'), ('', 'str'), ('abc', 'str'), ('x,y', 'str'), ('q"r', 'str'), (' lead', 'str'),
